@@ -274,6 +274,53 @@ theorem integrate_additive_at_sample (w1 w2 v1 v2 : List ℚ) (m y a b : ℚ)
     keepMask_length_eq _ _ _ hl1
   exact (trapz_additive_at_sample m y _ _ _ _ hlen).symm
 
+/-! exactness for piecewise-linear data: the line through two consecutive samples, a primitive of it, and the sum over the
+segments of the primitive's increments — the exact integral of the piecewise-linear interpolant -/
+
+/-- the line through (x0, y0), (x1, y1) -/
+def lineThrough (x0 y0 x1 y1 x : ℚ) : ℚ := y0 + (y1 - y0) / (x1 - x0) * (x - x0)
+/-- a primitive of that line: `linePrim (x + h) − linePrim x = h·lineThrough x + slope·h²/2` (`linePrim_is_primitive`) -/
+def linePrim (x0 y0 x1 y1 x : ℚ) : ℚ := y0 * x + (y1 - y0) / (x1 - x0) * (x - x0) ^ 2 / 2
+
+theorem linePrim_is_primitive (x0 y0 x1 y1 x h : ℚ) :
+    linePrim x0 y0 x1 y1 (x + h) - linePrim x0 y0 x1 y1 x = h * lineThrough x0 y0 x1 y1 x + (y1 - y0) / (x1 - x0) * h ^ 2 / 2 := by
+  simp only [linePrim, lineThrough]; ring
+
+/-- exact integral of the piecewise-linear interpolant through the samples: Σ over segments of ∫ line -/
+def pwLinearIntegral : List ℚ → List ℚ → ℚ
+  | x0 :: x1 :: xs, y0 :: y1 :: ys =>
+      (linePrim x0 y0 x1 y1 x1 - linePrim x0 y0 x1 y1 x0) + pwLinearIntegral (x1 :: xs) (y1 :: ys)
+  | _, _ => 0
+
+/-- the trapezoid rule is exact for piecewise-linear data: on a strictly increasing grid it equals the exact integral of
+the piecewise-linear function through the samples (segment by segment, via a primitive of each segment's line) -/
+theorem trapz_exact_piecewise_linear : ∀ (w v : List ℚ), StrictInc w → trapz w v = pwLinearIntegral w v := by
+  intro w
+  induction w with
+  | nil => intro v _; simp [trapz, pwLinearIntegral]
+  | cons x0 w ih =>
+    intro v hs
+    cases w with
+    | nil => simp [trapz, pwLinearIntegral]
+    | cons x1 xs => cases v with
+      | nil => simp [trapz, pwLinearIntegral]
+      | cons y0 v => cases v with
+        | nil => simp [trapz, pwLinearIntegral]
+        | cons y1 ys =>
+          have h01 : x0 < x1 := (List.pairwise_cons.mp hs).1 x1 (by simp)
+          have hd : x1 - x0 ≠ 0 := by linarith
+          simp only [trapz, pwLinearIntegral, ih (y1 :: ys) (List.pairwise_cons.mp hs).2, linePrim]
+          congr 1
+          field_simp
+          ring
+
+/-- … hence `integrate s a b` is the exact integral of the piecewise-linear interpolant through the samples it keeps -/
+theorem integrate_exact_piecewise_linear (s : Spectrum) (h : WF s) (a b : ℚ) :
+    integrate s a b = pwLinearIntegral (keepMask (s.wave.map (Gen.integrateKeeps a b)) s.wave)
+      (keepMask (s.wave.map (Gen.integrateKeeps a b)) s.value) := by
+  simp only [integrate]
+  exact trapz_exact_piecewise_linear _ _ (h.1.sublist (keepMask_sublist _ _))
+
 /-! ### binning -/
 
 theorem binRaw_length_trapz (s : Spectrum) (sym : Bool) (fl fr : ℚ) (c bins : List ℚ)
@@ -312,6 +359,30 @@ theorem bin_length_trapz (s : Spectrum) (sym : Bool) (fl fr : ℚ) (pp : Option 
     have := binRaw_length_trapz s sym fl fr c raw hraw
     split at h <;> cases h <;> simp [this]
 
+/-- Simpson binning (symmetric ends, float centres, no power preservation) of a non-negative spectrum is non-negative: the
+weights (x₂−x₀)/6·(1, 4, 1) of the chained rule are positive on increasing sample points — for any increasing centres, in
+particular the uniform ones of the property's Simpson clause. (`ends='inside'`, integer-dtype centres and the scipy
+normalisation under preserve_power are not covered: oracle only.) -/
+theorem bin_simps_nonneg_symmetric (s : Spectrum) (hwf : WF s) (hv : ∀ v ∈ s.value, 0 ≤ v) (fl fr : ℚ)
+    (hfl : 0 ≤ fl) (hfr : 0 ≤ fr) (c : List ℚ) (hc : StrictInc c) (bins : List ℚ)
+    (h : bin s true true fl fr none c = .ok bins) : ∀ b ∈ bins, 0 ≤ b := by
+  simp only [bin, binRaw, if_true, sample] at h
+  split at h
+  · cases h
+  · rename_i raw hraw
+    split at hraw
+    · cases hraw
+    · split at hraw
+      · cases hraw
+      · rename_i f hf
+        split at hf
+        · cases hf
+        · cases hf; cases hraw; cases h
+          apply simpsBins_nonneg_adj _ _ (adjLe_simpsPoints_symmetric c hc)
+          intro v hv'
+          obtain ⟨x, _, rfl⟩ := List.mem_map.mp hv'
+          exact interpAt_nonneg _ _ _ _ _ hwf.1 hv hfl hfr
+
 /-- Simpson binning also returns one value per requested centre (both end treatments, float or integer-dtype centres) -/
 theorem binRaw_length_simps (s : Spectrum) (sym intC : Bool) (fl fr : ℚ) (c bins : List ℚ)
     (h : binRaw s true sym fl fr c intC = .ok bins) : bins.length = c.length := by
@@ -342,6 +413,32 @@ theorem bin_length (s : Spectrum) (simps sym intC : Bool) (fl fr : ℚ) (pp : Op
         exact binRaw_length_trapz s sym fl fr c raw hraw'
       · exact binRaw_length_simps s sym intC fl fr c raw hraw
     split at h <;> cases h <;> simp [hr]
+
+/-- trapezoid binning is exact for a spectrum that is linear across every bin: if the samples lie on the line a·λ + b and
+all bin edges lie inside the sampled range, bin k is the exact integral ∫ (a·λ + b) dλ over [e_k, e_{k+1}]
+(`exactBins a b edges`: a(e_{k+1}² − e_k²)/2 + b(e_{k+1} − e_k)) — both end treatments -/
+theorem bin_trapz_exact_linear (s : Spectrum) (a b lo hi : ℚ) (hval : s.value = s.wave.map fun t => a * t + b)
+    (hs : StrictInc s.wave) (h2 : 2 ≤ s.wave.length) (hlo : s.wave.head? = some lo) (hhi : s.wave.getLast? = some hi)
+    (sym : Bool) (fl fr : ℚ) (c : List ℚ) (hedges : ∀ e ∈ trapzEdges sym c, lo ≤ e ∧ e ≤ hi) (bins : List ℚ)
+    (h : bin s false sym fl fr none c = .ok bins) : bins = exactBins a b (trapzEdges sym c) := by
+  simp only [bin, binRaw, Bool.false_eq_true, if_false, sample] at h
+  split at h
+  · cases h
+  · rename_i raw hraw
+    split at hraw
+    · cases hraw
+    · split at hraw
+      · cases hraw
+      · rename_i f hf
+        split at hf
+        · cases hf
+        · cases hf; cases hraw; cases h
+          have : (trapzEdges sym c).map (interpAt s.wave s.value fl fr) = (trapzEdges sym c).map fun t => a * t + b := by
+            apply List.map_congr_left
+            intro e he
+            rw [hval]
+            exact interpAt_linear a b fl fr s.wave e lo hi hs h2 hlo hhi (hedges e he).1 (hedges e he).2
+          rw [this, trapzBins_linear]
 
 /-- non-negativity of `bin` itself (trapezoid rule): a well-formed spectrum with non-negative values and non-negative
 fill, strictly increasing centres ⇒ every bin is non-negative — without power preservation, and with it (the
